@@ -489,7 +489,7 @@ static void c07_check_saved(const canon::Saved& sv, bool has_unknown, const std:
 }
 
 // every edit of the menu, applied to a fresh load of F, then saved raw and default
-static const char* C07_EDITS[] = {"none", "delete-block", "add-node", "add-shape", "delete-vertex", "rename", "add-extra-data", "set-texture", "convert", "clone-shape", "key-interpolation", "replace-block-same-type", "header-info", "recreate"};
+static const char* C07_EDITS[] = {"none", "delete-block", "add-node", "add-shape", "delete-vertex", "rename", "add-extra-data", "set-texture", "convert", "clone-shape", "key-interpolation", "replace-block-same-type", "header-info", "recreate", "object-reused"};
 
 // every animation key group of a block: switch the interpolation type and add a key through the API
 template<class G>
@@ -590,6 +590,15 @@ static void c07_file_checks(const std::string& F, const std::string& keybase, co
 					auto o = hdr.GetBlock<NiObject>(id);
 					if (!o || dynamic_cast<NiGeometryData*>(o) || dynamic_cast<NiShape*>(o)) applied = false; // shapes / geometry data are linked through cached pointers
 					else hdr.ReplaceBlock(id, o->Clone());
+				}
+				else if (e == "object-reused") {
+					// the object first holds and SAVES another model (one with a block size table, one without), then loads F:
+					// nothing of the earlier save may leak into the next one
+					variants = 2;
+					x.Create(var == 0 ? NiVersion::getSSE() : NiVersion::getOB());
+					x.AddNode("Earlier", MatTransform());
+					(void) s1::save(x, true);
+					if (s1::load(x, F) != 0) applied = false;
 				}
 				else if (e == "recreate") {
 					// the object that held the loaded file is reused for a new model (Create), which gets a node and a shape
